@@ -6,6 +6,13 @@
  * the target only on success.  Monitors: callback bound of the harness getc,
  * target tree unchanged (deep serialisation) after a negative return,
  * set_format() result, ASan/UBSan/LSan by the runner.
+ *
+ * Second driver: mpt_parse_config() with a handler that keeps copies of the
+ * event path (mpt::path copy constructor: the copy shares the parser's
+ * character buffer) for a PRNG-chosen subset of events, together with the
+ * path and value bytes it saw.  Every copy is verified again at each later
+ * event and after the parse, then released; the stack model of open sections
+ * (c08_rec.c) and the callback bound run as in the C leg.
  */
 #include <cstdlib>
 #include <cstring>
@@ -19,6 +26,7 @@
 #include "parse.h"
 
 #include "c08_gen.h"
+#include "c08_rec.h"
 #include "vf.h"
 
 using namespace mpt;
@@ -28,7 +36,7 @@ const char *vf_name = "c08_cxx";
 struct feed {
 	uint8_t *d;
 	size_t n, pos, err_at;
-	uint64_t calls, after_end, bound;
+	uint64_t calls, saves, after_end, bound;
 };
 static const size_t NONE = (size_t) -1;
 
@@ -36,7 +44,7 @@ static int h_getc(void *arg)
 {
 	feed *in = static_cast<feed *>(arg);
 	in->calls++;
-	if (in->calls > in->bound) {
+	if (in->calls + in->saves > in->bound) {
 		vf_fail("model:termination:callback-bound", "%llu getc callbacks for an input of %zu bytes (bound %llu)",
 		        (unsigned long long) in->calls, in->n, (unsigned long long) in->bound);
 	}
@@ -127,6 +135,140 @@ static node *mk_node(node *parent, const char *name, const char *text)
 	return n;
 }
 
+/* ------------------------------------------------- retained event paths */
+struct kept {
+	kept(const path &p, const value *v, uint64_t ev, int code) : copy(p), event(ev), curr(code)
+	{
+		span<const char> pv = p.value();
+		const uint8_t *pb = reinterpret_cast<const uint8_t *>(pv.begin());
+		if (pv.size()) pbytes.assign(pb, pb + pv.size());
+		if (v) {
+			const struct iovec *io = static_cast<const struct iovec *>(v->data());
+			const uint8_t *b = static_cast<const uint8_t *>(io->iov_base);
+			vbytes.assign(b, b + io->iov_len);
+		}
+	}
+	path copy;                      /* shares the buffer of the parser's path */
+	blob pbytes, vbytes;            /* what the handler saw */
+	uint64_t event;
+	int curr;
+};
+struct keeper {
+	c08_recorder rec;
+	std::vector<kept *> held;
+	vf_rng *r;
+	feed *in;
+	const char *desc;
+	uint64_t verified;
+	uint64_t kinds[8];
+};
+static void keep_tick(void *arg, const char *)
+{
+	feed *in = static_cast<feed *>(arg);
+	in->saves++;
+	if (in->calls + in->saves > in->bound) {
+		vf_fail("model:termination:callback-bound", "%llu getc + %llu save callbacks for an input of %zu bytes (bound %llu)",
+		        (unsigned long long) in->calls, (unsigned long long) in->saves, in->n, (unsigned long long) in->bound);
+	}
+}
+static void keep_verify(keeper *k, const char *when)
+{
+	char h1[140], h2[140];
+	for (size_t i = 0; i < k->held.size(); i++) {
+		const kept *e = k->held[i];
+		span<const char> pv = e->copy.value(), post = e->copy.data();
+		const uint8_t *now = reinterpret_cast<const uint8_t *>(pv.begin());
+		size_t len = pv.size();
+		VF_CHECK(len == e->pbytes.size(), "model:retained-path:length", "%s: copy of the path of event %llu (code %x) has length %zu, was %zu (%s)",
+		         k->desc, (unsigned long long) e->event, e->curr, len, e->pbytes.size(), when);
+		if (len && memcmp(now, e->pbytes.data(), len)) {
+			vf_fail("model:retained-path:changed", "%s: copy of the path of event %llu (code %x) taken as %s is now %s (%s, %llu events seen)",
+			        k->desc, (unsigned long long) e->event, e->curr, vf_hex(h1, sizeof(h1), e->pbytes.data(), len),
+			        vf_hex(h2, sizeof(h2), now, len), when, (unsigned long long) k->rec.count);
+		}
+		if (e->vbytes.size()) {
+			const uint8_t *vn = reinterpret_cast<const uint8_t *>(post.begin());
+			size_t vl = (size_t) post.size() < e->vbytes.size() ? (size_t) post.size() : e->vbytes.size();
+			if (vl != e->vbytes.size() || memcmp(vn, e->vbytes.data(), vl)) {
+				vf_fail("model:retained-path:value-changed", "%s: value behind the path copy of event %llu (code %x) taken as [%zu]%s is now [%zu]%s (%s)",
+				        k->desc, (unsigned long long) e->event, e->curr, e->vbytes.size(), vf_hex(h1, sizeof(h1), e->vbytes.data(), e->vbytes.size()),
+				        post.size(), vf_hex(h2, sizeof(h2), vn, vl), when);
+			}
+		}
+		k->verified++;
+	}
+}
+static int keep_save(void *arg, const path *p, const value *v, int prev, int curr)
+{
+	keeper *k = static_cast<keeper *>(arg);
+	/* nothing the parser did since may have touched what copies refer to */
+	keep_verify(k, "at a later event");
+	if (k->held.size() < 48 && vf_chance(k->r, 2, 5)) {
+		k->held.push_back(new kept(*p, v, k->rec.count, curr));
+		if (curr >= 0 && curr < 8) k->kinds[curr]++;
+	}
+	return c08_rec_save(&k->rec, p, v, prev, curr);
+}
+static void drive_keep(const c08_case &c, vf_rng *r, const char *desc)
+{
+	parser_context ctx;
+	parser_format pf;
+	input_parser_t next;
+	keeper k;
+	feed in;
+	int ret;
+
+	memcpy(&pf, c.pf, sizeof(pf));
+	vf_at("mpt_parse_next_fcn");
+	if (!(next = mpt_parse_next_fcn(c.type))) return;
+
+	in.d = static_cast<uint8_t *>(vf_xalloc(c.len));
+	memcpy(in.d, c.doc, c.len);
+	in.n = c.len; in.pos = 0; in.calls = in.saves = in.after_end = 0;
+	in.err_at = vf_chance(r, 1, 8) ? vf_below(r, (uint32_t) c.len + 1) : NONE;
+	in.bound = 8 * ((uint64_t) c.len + 8);
+
+	c08_rec_init(&k.rec, 0, vf_chance(r, 1, 12) ? (long) vf_below(r, 8) : -1);
+	k.rec.tick = keep_tick;
+	k.rec.tick_arg = &in;
+	k.r = r; k.in = &in; k.desc = desc; k.verified = 0;
+	memset(k.kinds, 0, sizeof(k.kinds));
+
+	ctx.src.getc = h_getc;
+	ctx.src.arg = &in;
+	ctx.src.line = 0;
+	if (c.sect != 0xff) { ctx.name.sect = c.sect; ctx.name.opt = c.opt; }
+	ctx.prev = parser_context::Section;
+	vf_fp_u64(0x4b ^ ((uint64_t) in.err_at << 8) ^ ((uint64_t) (k.rec.fail_at + 1) << 48));
+	vf_log("K: mpt_parse_config with retained paths err_at=%zd fail_at=%ld", (ssize_t) in.err_at, k.rec.fail_at);
+	vf_at("mpt_parse_config");
+	vf_count("mpt_parse_config", 1);
+	ret = mpt_parse_config(next, &pf, &ctx, keep_save, &k);
+	vf_log("K: = %d events=%llu retained=%zu", ret, (unsigned long long) k.rec.count, k.held.size());
+	/* the parser has released its path; copies are on their own now */
+	keep_verify(&k, "after the parse");
+	vf_count("monitor:callback-bound-checks", in.calls + in.saves);
+	vf_count("monitor:retained-path-verifications", k.verified);
+	vf_count("events:seen-by-retaining-handler", k.rec.count);
+	vf_count("events:path-retained", k.held.size());
+	vf_count("retained:section", k.kinds[1]);
+	vf_count("retained:sectend", k.kinds[2]);
+	vf_count("retained:option", k.kinds[3] + k.kinds[7]);
+	vf_count("retained:data", k.kinds[4]);
+	if (k.held.size() >= 2) vf_count("state:parse-with-2+-retained-paths", 1);
+	c08_rec_verdict(&k.rec, c.type, pf.sstart == pf.send, ret, "K", desc);
+	if (k.held.size() >= 2) vf_nontrivial();
+	/* release in PRNG order: last owner frees the buffer */
+	while (!k.held.empty()) {
+		size_t i = vf_below(r, (uint32_t) k.held.size());
+		delete k.held[i];
+		k.held.erase(k.held.begin() + (long) i);
+		if (!k.held.empty() && vf_chance(r, 1, 4)) keep_verify(&k, "while copies are released");
+	}
+	c08_rec_fini(&k.rec);
+	vf_xfree(in.d, in.n);
+}
+
 uint64_t vf_cases(void) { return vf_thorough ? 600000 : 60000; }
 
 void vf_case(uint64_t, vf_rng *r)
@@ -174,7 +316,7 @@ void vf_case(uint64_t, vf_rng *r)
 			int ret;
 			in.d = static_cast<uint8_t *>(vf_xalloc(c.len));
 			memcpy(in.d, c.doc, c.len);
-			in.n = c.len; in.pos = 0; in.calls = in.after_end = 0;
+			in.n = c.len; in.pos = 0; in.calls = in.saves = in.after_end = 0;
 			in.err_at = vf_chance(r, 1, 6) ? vf_below(r, (uint32_t) c.len + 1) : NONE;
 			in.bound = 8 * ((uint64_t) c.len + 8);
 			p.source(h_getc, &in);
@@ -210,6 +352,7 @@ void vf_case(uint64_t, vf_rng *r)
 			vf_xfree(in.d, in.n);
 		}
 	}
+	if (c.known) drive_keep(c, r, desc);
 	vf_sample("%s", desc);
 	c08_case_free(&c);
 }
